@@ -357,6 +357,7 @@ func RunProp[C any](t *testing.T, p Prop[C]) {
 			out, _ := json.Marshal(replayFile{Property: p.ID, Prop: p.Name, Seed: envInt("VERIF_SEED", 1), Case: bz})
 			_ = os.WriteFile(wal, out, 0o644)
 			fmt.Printf("\nfatal error: %s\n", what)
+			writeStats() // what was explored before the hang still counts
 			os.Exit(3)
 		}
 		if p.WAL {
